@@ -218,6 +218,18 @@ func (w *Writer) Emit(kind string, c Case) {
 	w.mu.Unlock()
 }
 
+// Violation reports an observation of the real code that cannot be expressed as a case of the judge and
+// that the property excludes; the orchestrator counts it as a failure of the property's oracle.
+func (w *Writer) Violation(id, reason string, desc map[string]any) {
+	b, _ := json.Marshal(map[string]any{"id": id, "violation": reason, "desc": desc, "replay": []string{"-only", id}})
+	w.mu.Lock()
+	w.w.Write(b)
+	w.w.WriteByte('\n')
+	w.count["harness-violation"]++
+	w.n++
+	w.mu.Unlock()
+}
+
 // Tally adds to a distribution counter without emitting a case.
 func (w *Writer) Tally(kind string, n int) {
 	w.mu.Lock()
